@@ -685,6 +685,11 @@ class ComplexModelMeta(with_metaclass(Prepareable, type(ModelBase))):
             if self.Attributes._subclasses is eattr._subclasses:
                 self.Attributes._subclasses = None
 
+            # the customized variants of the parent class are not variants of
+            # this class. Without its own attribute, lookups would fall through
+            # to the parent's Attributes.
+            self.Attributes._variants = None
+
         # sanitize fields
         for k, v in type_info.items():
             # replace bare SelfRerefence
